@@ -1,6 +1,7 @@
 """C04 - answers do not depend on query history; matching never mutates the tree (stateful, rule-based)."""
 from __future__ import annotations
 
+import copy
 import time
 import warnings
 
@@ -40,16 +41,40 @@ POOL = [
     ':checked', ':in-range', ':out-of-range', ':disabled', ':enabled', ':required', ':read-write', ':placeholder-shown',
     ':empty', ':first-child', ':root', 'p:-soup-contains("x")', ':is(:default, :indeterminate, :lang(""))',
     'form:has(:indeterminate) :default', ':defined', ':link', 'input', '*', 'fieldset *', ':last-of-type',
+    # plain attribute readers (they normalise whatever a program stored on the element)
+    '.x, .k', '[title~=abc]', '#i1, #a', '[data-cols]', '[class*=x]:not([rel~=k])', '[unknown|=k]',
 ]
 MEMO = (':lang', ':default', ':indeterminate', ':dir')
 FGCFG = FG.Cfg(scope=False, ns_forms=True, prefixes=('svg',), contains_alias=False, max_depth=2)
+
+
+# values a program (not a parser) may store on an element: lists with non-string items, tuples, bytes, numbers
+ODD = [['x', 7, b'y'], [1, 2, 3], [['a'], 'b'], ('k', 'm'), [None, 5], 5, None, b'k m', [b'k'], ['k', ['m', 'n']], 3.5, True]
+ODD_ATTRS = ('class', 'data-cols', 'title', 'rel', 'id', 'unknown')
+
+
+def build(recipe, odd=None):
+    doc = trees.materialise(recipe)
+    if odd:
+        els = doc.all_elements()
+        for idx, attr, oi in odd:
+            if els:
+                els[idx % len(els)].attrs[attr] = copy.deepcopy(ODD[oi % len(ODD)])
+    return doc
+
+
+def serialise(top):
+    try:
+        return str(top)
+    except Exception:  # noqa: BLE001  (bs4 cannot serialise every odd attribute value; the other snapshot parts still apply)
+        return [(type(n).__name__, getattr(n, 'name', None) if isinstance(n, bs4.Tag) else str(n)) for n in top.descendants]
 
 
 def snapshot(doc):
     top = doc.top()
     nodes = list(top.descendants)
     return {
-        'str': str(top),
+        'str': serialise(top),
         'ids': [id(n) for n in nodes],
         'attrs': [(id(n), [(str(k), repr(v)) for k, v in n.attrs.items()]) for n in nodes if isinstance(n, bs4.Tag)],
         'parents': [id(n.parent) for n in nodes],
@@ -102,7 +127,7 @@ def do_call(doc, call, NS=None):
     return positions(doc, r), target
 
 
-def check_step(recipe, doc, snap, history, fails, NS=None):
+def check_step(recipe, doc, snap, history, fails, NS=None, odd=None):
     """Invariants after the last call of `history`."""
     NS = NS_DEFAULT if NS is None else NS
     call = history[-1]
@@ -153,7 +178,7 @@ def check_step(recipe, doc, snap, history, fails, NS=None):
             fails.append(('raises-' + type(e).__name__, f'filter({text!r}, detached roots): {e!r:.150}'))
     # (2) pristine copy, purged cache
     sv.purge()
-    fresh = trees.materialise(recipe)
+    fresh = build(recipe, odd)
     try:
         res2, _ = do_call(fresh, call, NS)
     except Exception as e:  # noqa: BLE001
@@ -173,12 +198,12 @@ def check_step(recipe, doc, snap, history, fails, NS=None):
 def run_history(case):
     """Replay a recorded history from scratch; returns list of failures."""
     sv.purge()
-    doc = trees.materialise(case['tree'])
+    doc = build(case['tree'], case.get('odd'))
     snap = snapshot(doc)
     fails = []
     ns = case.get('ns')
     for i in range(1, len(case['history']) + 1):
-        check_step(case['tree'], doc, snap, case['history'][:i], fails, ns)
+        check_step(case['tree'], doc, snap, case['history'][:i], fails, ns, case.get('odd'))
         if fails:
             break
     return fails
@@ -223,14 +248,18 @@ def make_machine(col, tier, t_end):
             else:
                 self.recipe, self.flavour = htmldoc.gen_html_doc(ch, depth=2 if tier == 'quick' else 3,
                                                                  iframe_rooted=False, memo_rich=True)
+            # a quarter of the documents carry values only a program can store (lists with non-string items, ...)
+            self.odd = [[ch.i(0, 40), ch.pick(ODD_ATTRS), ch.i(0, len(ODD) - 1)] for _ in range(ch.i(1, 4))] if ch.p(0.25) else None
             sv.purge()
-            self.doc = trees.materialise(self.recipe)
+            self.doc = build(self.recipe, self.odd)
             self.snap = snapshot(self.doc)
             self.history = []
             self.memo_queries = 0
             self.nonempty = False
             self.extra = [S.render_list(FG.gen_list(ch, FGCFG, max_items=2)) for _ in range(4)]
             col.classify('doc:' + self.flavour)
+            if self.odd:
+                col.classify('odd-attribute-values')
 
         @rule(si=st.integers(0, len(POOL) + 3), kind=st.sampled_from(['select', 'select', 'iselect', 'select_one', 'match',
                                                                       'filter', 'filter-list', 'closest']),
@@ -242,14 +271,14 @@ def make_machine(col, tier, t_end):
             call = {'call': kind, 'sel': text, 'target': tgt, 'perm': perm}
             self.history.append(call)
             fails = []
-            info = check_step(self.recipe, self.doc, self.snap, self.history, fails, self.ns)
+            info = check_step(self.recipe, self.doc, self.snap, self.history, fails, self.ns, self.odd)
             col.count(6)
             col.classify('call:' + kind)
             if info and info['n'] >= 2 and any(m in text for m in MEMO):
                 self.memo_queries += 1
                 self.nonempty = self.nonempty or info['nonempty']
             for b, d in fails[:2]:
-                col.fail(b, {'tree': self.recipe, 'history': list(self.history), 'ns': self.ns}, d)
+                col.fail(b, {'tree': self.recipe, 'history': list(self.history), 'ns': self.ns, 'odd': self.odd}, d)
 
         def teardown(self):
             if self.doc is not None and self.memo_queries >= 2 and self.nonempty:
